@@ -9,6 +9,15 @@ CHECKS = {
     "C01": ("CrossHair/z3 exploration of symbolic IH5 container stacks under the real ih5/overlay.py on an in-memory HDF5 substrate: read == fold(stack); one write step == same step on the materialised single container == plain file; Inv preserved (induction over histories); counterexamples replayed as public-API histories on real h5py",
             "trusted: in-memory h5py substrate (conformance-tested against real h5py on every run); reference fold written from PATCH_THEORY.md; representation invariant Inv; kinds enumerated by solver-driven realisation, real code then runs on concrete state; bounds: <=3 containers (thorough 4), universes of <=3 paths + 1 attribute, 14 operations x 6 path arguments",
             "3.3, 4/C01"),
+    "C02": ("CrossHair/z3 exploration of API histories after a commit (18 actions, sequences of 3) on the real IH5Record/IH5MFRecord over an in-memory file system with a byte-level frame oracle on every committed container and manifest sidecar, plus the one-write-step obligation of the overlay harness (writes land in the newest container only)",
+            "trusted: substrate (conformance-tested); abstract payload bytes change iff an HDF5-level write happened; action choices realised by solver-driven branching, real code then runs on concrete state; counterexamples replayed on real h5py files",
+            "4/C02"),
+    "C03": ("CrossHair/z3 symbolic execution of the real IH5Record/IH5MFRecord __init__ mode dispatch, _open, _create, discard_patch, find_files, list_records with a symbolic mode string (any string of length <=2), 6 on-disk situations, every file order, prefix-related record names, against the h5py.File mode table",
+            "trusted: substrate (conformance-tested incl. file modes/user blocks); mode table written from the h5py.File documentation; bounds: mode strings <=2 chars, <=3 containers, names <=2 chars over {a,b,-,1}; counterexamples replayed on real h5py files",
+            "4/C03"),
+    "C04": ("CrossHair/z3 symbolic execution of the real IH5Record._open/_check_ublock (and IH5MFRecord overrides) on stand-in user blocks with symbolic record ids, patch indices, uuids and predecessor links (1..3 files, any order, every hash-verdict combination) against an independently written coherence predicate",
+            "trusted: SHA-256 detects payload modification (hash oracle is a per-file verdict); stand-in user blocks; counterexamples replayed with real user blocks on real h5py files",
+            "4/C04"),
     "C09": ("same (W) obligation as C01 with the plain substrate file as third party: every raw protocol operation succeeds/fails alike and leaves the same tree for any patch-boundary placement; protocol members enumerated from util/types.py",
             "trusted: as C01; driver level only (container-level metadata/query lock-step is outside, see C06); exception classes not compared",
             "4/C09"),
